@@ -441,6 +441,16 @@ func (p *proxyConn) writeResponse(res *http.Response) error {
 		}
 	}
 
+	// A body decoded by the transport has neither length nor transfer coding left,
+	// it would be written without any delimiter on a connection that stays open.
+	if res.Uncompressed && res.ContentLength < 0 && len(res.TransferEncoding) == 0 && !isHeaderOnlySpec(res) {
+		if req.ProtoAtLeast(1, 1) && res.ProtoAtLeast(1, 1) {
+			res.TransferEncoding = []string{"chunked"}
+		} else {
+			res.Close = true
+		}
+	}
+
 	if res.Close {
 		res.Header.Add("Connection", "close")
 	}
